@@ -1,702 +1,230 @@
-"""C12 float <-> text: igris_f32toa/f64toa/ftoa, igris_atof32/atof64/strtod and the libc strtod/atof shims."""
+"""C12 float <-> text: igris_f32toa/f64toa/ftoa, igris_atof32/atof64/strtod, the libc strtod/atof shims, the ASCII float
+reader of igris::binreader and the float printer of dprint.
+
+Helpers: c12_render.py (renderer), c12_parse.py (parsers), c12_frange.py (floating-point interval analysis);
+witness/w_c12_binreader.cpp."""
 from c07_common import *
+from c12_render import ftoa_check
+from c12_parse import atof64_check, atof32_check, grammar_rule, fpacc_rule, loop_guard
+from c12_frange import FRange, V_of
 
-MAXP = 10
-
-
-# ----------------------------------------------------------------------------------------------
-# renderer
-# ----------------------------------------------------------------------------------------------
-def ext_strcpy(interp, st, i, args):
-    """strcpy(dst, "literal"): remembers which token was written where (ghost tok: 1 inf, 2 nan, 3 other)"""
-    d, s = args[0], args[1]
-    txt = None
-    if isinstance(s, PtrVal) and s.obj is not None and str(s.obj).startswith('global:') and s.off.is_const():
-        g = interp.mod.globals.get(str(s.obj)[7:])
-        init = g.get('init') if g else None
-        if g and g.get('const') and isinstance(init, list) and all(isinstance(x, int) for x in init):
-            b = init[s.off.c:]
-            if 0 in b:
-                txt = ''.join(chr(x & 0xff) for x in b[:b.index(0)])
-    st.ghost['tok'] = {'inf': 1, 'nan': 2}.get(txt, 3)
-    if isinstance(d, PtrVal):
-        st.ghost['tok_off'] = d.off
-        st.ghost['tok_buf'] = 1 if d.obj == st.ghost.get('bufid') else 0
-    return [(st, d)]
+INF = float('inf')
+DBL_MAX = 1.7976931348623157e308
 
 
-def rounders_rule(rep, mod, f):
-    """R-ROUNDERS: the table indexed by the precision holds 0.5 * 10^-i for i = 0..MAX_PRECISION (each entry the
-    correctly rounded double of the decimal literal)"""
-    tabs = []
-    for i in f.all_insts():
-        if i.op == 'getelementptr' and i.ops[0].k == 'global':
-            g = mod.globals.get(i.ops[0].name)
-            if g and g['ty'].get('elem') == 'double':
-                tabs.append((i, g))
-    if len(tabs) != 1:
-        raise AnalysisBroken('igris_f32toa: rounding table not found (%d candidates)' % len(tabs))
-    gi, g = tabs[0]
-    init = g.get('init')
-    ok = g.get('const') and isinstance(init, list) and len(init) == MAXP + 1
-    rep.inst('R-ROUNDERS', 'igris_f32toa', 'table is constant with %d entries' % (MAXP + 1), bool(ok), gi.where(),
-             'rounding table has %s entries' % (len(init) if isinstance(init, list) else '?'))
-    for k in range(MAXP + 1):
-        want = float('5e-%d' % (k + 1))
-        got = init[k] if isinstance(init, list) and k < len(init) else None
-        rep.inst('R-ROUNDERS', 'igris_f32toa', 'rounders[%d] == 0.5e-%d' % (k, k), got == want, gi.where(),
-                 'rounders[%d] is %r, half a unit of the %d-th fraction digit is %r' % (k, got, k, want),
-                 fact={'index': k, 'value': got})
-    # the rounder is added to the magnitude before the integer part is split off
-    casts = [c for c in f.all_insts() if c.op == 'fptosi' and c.bits >= 32]
-    ok = False
-    if len(casts) == 1:
-        st_ = [casts[0].ops[0]]
-        seen = set()
-        while st_:
-            v = st_.pop()
-            if v.k != 'inst' or v.id in seen:
-                continue
-            seen.add(v.id)
-            i = f.insts[v.id]
-            if i.op in ('phi', 'select'):
-                st_.extend(i.ops)
-            elif i.op == 'fadd':
-                for o in i.ops:
-                    x = o
-                    while x.k == 'inst' and f.insts[x.id].op in ('fptrunc', 'fpext'):
-                        x = f.insts[x.id].ops[0]
-                    if x.k == 'inst' and f.insts[x.id].op == 'load' and f.insts[x.id].ops[0].k == 'inst' and \
-                            f.insts[x.id].ops[0].id == gi.id:
-                        ok = True
-    rep.inst('R-ROUNDERS', 'igris_f32toa', 'rounder is added before the integer part is taken', ok, gi.where(),
-             'the value converted to the integer part does not include rounders[precision]')
-
-
-def digit_cursor(f, L, stores):
-    """the header phi of the digit loop through which the digits are stored (a pointer advanced once per iteration)"""
-    out = []
-    for sid in stores:
-        p = f.insts[sid].ops[1]
-        for _ in range(3):
-            if p.k != 'inst':
-                break
-            i = f.insts[p.id]
-            if i.op == 'phi' and i.block is L['header'] and i.ty.get('k') == 'ptr':
-                out.append(i)
-                break
-            if i.op in ('getelementptr', 'bitcast'):
-                p = i.ops[0]
-            else:
-                break
-    if len(out) != 1:
-        raise AnalysisBroken('%s: the integer digits are not stored through one loop-carried cursor (anchor changed)' % f.name)
-    return out[0]
-
-
-class InterpR(Interp7):
-    """Interp7 that knows the emitting loops of the renderer.  tracked = {header block name: (function, loop, cursor
-    phi, begin key, end key, peel)}: the cursor position on entry is stored as ghost <begin key>, the cursor position at
-    every exit as ghost <end key> (a head-tested loop leaves through its header, where a value noted by a hook in the
-    body is not the one of the last iteration).  peel: the first iteration is executed separately (the digit loop is
-    entered with a non-zero dividend, so it emits at least one digit: a fact the inferred invariant of a head-tested loop
-    cannot express)"""
-
-    def __init__(self, mod, externals=None, opaque=()):
-        Interp7.__init__(self, mod, externals, opaque)
-        self.tracked = {}
-        self.joins = {}
-        self.join_seen = set()
-
-    # -- join of path states that differ only in a constant chosen by floating-point comparisons ----------------
-    @staticmethod
-    def const_tree(f, v, depth=0):
-        """constants a value can take when it is a constant or a select tree over constants, else None"""
-        if v.k == 'ci':
-            return {v.ival}
-        if v.k == 'inst' and depth < 4 and f.insts[v.id].op == 'select':
-            a = InterpR.const_tree(f, f.insts[v.id].ops[1], depth + 1)
-            b = InterpR.const_tree(f, f.insts[v.id].ops[2], depth + 1)
-            if a is not None and b is not None:
-                return a | b
-        return None
-
-    def plan_joins(self, fn):
-        """integer phis outside loops that merge at least three constants: the states arriving over those edges are
-        replaced by one state in which the phi is any value of the constants' range, provided the states are otherwise
-        equal (a sound over-approximation that removes one path per constant)"""
-        inloop = set()
-        for L in fn.loops:
-            inloop |= set(L['blocks'])
-        for b in fn.blocks:
-            if b in inloop:
-                continue
-            for ph in [i for i in b.insts if i.op == 'phi' and i.ty.get('k') == 'int' and i.bits > 1]:
-                edges = {}
-                for (bb, v) in ph.incoming:
-                    cs = self.const_tree(fn, v)
-                    if cs is not None:
-                        w = ph.bits
-                        edges[bb] = set(c - (1 << w) if c >= (1 << (w - 1)) else c for c in (x % (1 << w) for x in cs))
-                allc = set().union(*edges.values()) if edges else set()
-                if len(allc) >= 3 and (fn.name, b.name) not in self.joins:
-                    dom = set(i.id for d in fn.blocks if d is not b and fn.dominates_block(d, b) for i in d.insts)
-                    self.joins[(fn.name, b.name)] = dict(phi=ph, edges=set(edges), lo=min(allc), hi=max(allc), dom=dom)
-
-    def fingerprint(self, fn, b, st, frm, plan):
-        env = st.frames[-1]
-        items = sorted((str(k), repr(v)) for k, v in env.items() if k[0] == 'a' or (k[0] == 'i' and k[1] in plan['dom']))
-        phis = []
-        for i in b.insts:
-            if i.op == 'phi' and i.id != plan['phi'].id:
-                for (bb, v) in i.incoming:
-                    if bb == frm.name:
-                        phis.append((i.id, repr(self.val(st, v, fn))))
-        return (frozenset(st.cons.keys), frozenset(st.diseq), tuple(sorted((str(k), repr(v)) for k, v in st.mem.items())),
-                tuple(sorted((str(k), repr(v)) for k, v in st.ghost.items())), tuple(items), tuple(phis),
-                repr(st.frames[:-1]), tuple(sorted(str(k) for k in st.smashed)))
-
-    def run_function(self, fn, st, args):
-        if len(st.frames) == 1:
-            self.join_seen = set()
-        return Interp7.run_function(self, fn, st, args)
-
-    def exec_block(self, fn, b, st, frm, rets, skip_phis=False):
-        plan = self.joins.get((fn.name, b.name))
-        if plan is None or frm is None or skip_phis or frm.name not in plan['edges']:
-            return Interp7.exec_block(self, fn, b, st, frm, rets, skip_phis)
-        fp = (fn.name, b.name, self.recording) + self.fingerprint(fn, b, st, frm, plan)
-        if fp in self.join_seen:
-            return []
-        self.join_seen.add(fp)
-        self.eval_phis(fn, b, st, frm)
-        ph = plan['phi']
-        x = st.fresh_int(ph.bits, True, 'join_' + str(ph.name or ph.id))
-        st.cons.add_le(plan['lo'], x.s)
-        st.cons.add_le(x.s, plan['hi'])
-        st.env[('i', ph.id)] = x
-        return Interp7.exec_block(self, fn, b, st, frm, rets, skip_phis=True)
-
-    def track(self, fn, L, cur, begin, end, peel):
-        self.tracked[(fn.name, L['header'].name)] = (L, cur, begin, end, peel)
-
-    def run_loop(self, fn, L, st, frm, rets):
-        t = self.tracked.get((fn.name, L['header'].name))
-        if t is None or t[0] is not L:
-            return Interp7.run_loop(self, fn, L, st, frm, rets)
-        _, cur, begin, end, peel = t
-        init = None
-        for (bb, v) in cur.incoming:
-            if bb == frm.name:
-                init = self.val(st, v, fn)
-        if not isinstance(init, PtrVal):
-            raise AnalysisBroken('%s: cursor of the loop at %s has no pointer value on entry' % (fn.name, L['header'].name))
-        st.ghost[begin] = init.off
-        st.ghost.pop(end, None)
-        if peel:
-            self.eval_phis(fn, L['header'], st, frm)
-            latches, out = self.run_region(fn, L, [(st, frm)], rets)
-            out = list(out)
-            for (T, lf) in latches:
-                out.extend(Interp7.run_loop(self, fn, L, T, lf, rets))
-        else:
-            out = Interp7.run_loop(self, fn, L, st, frm, rets)
-        for (s, b, to) in out:
-            c = self.val(s, iv(cur), fn)
-            if isinstance(c, PtrVal) and c.obj == init.obj:
-                s.ghost[end] = c.off
-            else:
-                s.ghost.pop(end, None)
-        return out
-
-
-def ftoa_check(rep, mod):
-    fname = 'igris_f32toa'
-    f = need(mod, fname)
-    D = the_divloop(f)
-    IL = D['loop']
-    rem = D['rems'][0]
-    int_stores = set(i.id for b in IL['blocks'] for i in b.insts if i.op == 'store')
-    FL = [L for L in f.loops if any(i.op == 'fptosi' for b in L['blocks'] for i in b.insts)]
-    RL = [L for L in f.loops if L is not IL and L not in FL and any(i.op == 'store' for b in L['blocks'] for i in b.insts)]
-    if len(FL) != 1 or len(RL) != 1 or not int_stores:
-        raise AnalysisBroken('%s: fraction loop / reversal loop not found (anchor changed)' % fname)
-    frac_stores = set(i.id for b in FL[0]['blocks'] for i in b.insts if i.op == 'store')
-    rstores = {}
-    for b in RL[0]['blocks']:
-        ss = [i for i in b.insts if i.op == 'store']
-        for i in ss:
-            rstores[i.id] = ss
-    cur = digit_cursor(f, IL, int_stores)
-    it = InterpR(mod, externals={'strcpy': ext_strcpy, 'llvm.fabs.f32': ext_nop, 'llvm.fabs.f64': ext_nop})
-    it.plan_joins(f)
-    it.track(f, IL, cur, 'int_begin', 'int_end', True)
-    it.track(f, FL[0], digit_cursor(f, FL[0], frac_stores), 'frac_begin', 'frac_end', False)
-    sink = Sink(rep, it)
-    box = {}
-
-    def setup(run, st, env, names, args, sps):
-        box['buf'] = args[1].obj
-        g = st.ghost
-        g['bufid'] = args[1].obj
-        for k in ('nminus', 'nplus', 'ndot', 'nnul', 'tok', 'nother'):
-            g[k] = 0
-        g['int_begin'] = None
-
-    def sign_len(st):
-        return st.ghost['nminus'] + st.ghost['nplus']
-
-    def store_hook(interp, st, i, p, v):
-        if i.fn is not f or not isinstance(p, PtrVal) or p.obj != box.get('buf'):
-            return
-        g = st.ghost
-        w = i.where()
-        c = v.const() if isinstance(v, IntVal) else None
-        if i.id in int_stores:
-            vl = st.force_u(v) if isinstance(v, IntVal) else None
-            ok = vl is not None and st.cons.entails_le(48, vl) and st.cons.entails_le(vl, 57)
-            sink.inst('R-FTOA', fname, 'integer-digit-is-0..9', ok, w,
-                      'the character stored for an integer digit is %r: not provably in \'0\'..\'9\' (the integer part is '
-                      'obtained by a float -> int32 conversion without a magnitude guard, so it can be negative: e.g. '
-                      '3e9f converts to INT_MIN and prints characters below \'0\')%s'
-                      % (vl, interp.explain(st, [vl]) if vl is not None else ''))
-            ok = st.cons.entails_le(sign_len(st), p.off) and 'int_begin' in g and \
-                st.cons.entails_eq(g['int_begin'], sign_len(st))
-            sink.inst('R-FTOA', fname, 'integer-digits-follow-the-sign', ok, w,
-                      'digit stored at offset %r, digits begin at %r after %d sign character(s)'
-                      % (p.off, g.get('int_begin'), sign_len(st)))
-            return
-        if i.id in rstores:
-            lo, hi = Lin(sign_len(st)), g.get('int_end', Lin(0)) - 1
-            ok = st.cons.entails_le(lo, p.off) and st.cons.entails_le(p.off, hi)
-            sink.inst('R-FTOA', fname, 'reversal-stays-inside-the-integer-digits', ok, w,
-                      'the reversal writes offset %r outside [%r, %r]%s' % (p.off, lo, hi, interp.explain(st, [p.off, hi])))
-            src = i.ops[0]
-            li = f.insts[src.id] if src.k == 'inst' else None
-            ok = False
-            det = 'the reversal stores a value that is not read from the buffer'
-            if li is not None and li.op == 'load':
-                q = interp.val(st, li.ops[0], f)
-                if isinstance(q, PtrVal) and q.obj == p.obj:
-                    ok = st.cons.entails_eq(p.off + q.off, lo + hi)
-                    det = 'the reversal moves the byte at offset %r to offset %r: not mirror images in [%r, %r]' % (
-                        q.off, p.off, lo, hi)
-                    first = min(s_.idx for s_ in rstores[i.id])
-                    if ok and not (li.block is i.block and li.idx < first):
-                        ok = False
-                        det = 'the swap reads a byte after a store of the same swap may have overwritten it'
-            sink.inst('R-FTOA', fname, 'reversal-swaps-mirror-positions', ok, w, det)
-            return
-        if i.id in frac_stores:
-            ok = 'dot_off' in g and st.cons.entails_le(g['dot_off'] + 1, p.off) and 'frac_begin' in g and \
-                st.cons.entails_eq(g['dot_off'] + 1, g['frac_begin'])
-            sink.inst('R-FTOA', fname, 'fraction-digits-follow-the-point', ok, w,
-                      'fraction digit stored at offset %r, fraction begins at %r, decimal point at %r'
-                      % (p.off, g.get('frac_begin'), g.get('dot_off')))
-            return
-        if c == 45 or c == 43:
-            ok = st.cons.entails_eq(p.off, 0) and sign_len(st) == 0 and 'int_end' not in g
-            sink.inst('R-FTOA', fname, 'sign-is-the-first-character', ok, w, 'sign stored at offset %r' % p.off)
-            g['nminus' if c == 45 else 'nplus'] += 1
-            return
-        if c == 48:
-            ok = st.cons.entails_eq(p.off, sign_len(st)) and 'int_end' not in g
-            sink.inst('R-FTOA', fname, 'zero-integer-part-is-a-single-0', ok, w, '\'0\' stored at offset %r' % p.off)
-            g['int_end'] = p.off + 1
-            return
-        if c == 46:
-            ok = 'int_end' in g and st.cons.entails_eq(p.off, g['int_end'])
-            sink.inst('R-FTOA', fname, 'point-follows-the-integer-digits', ok, w,
-                      '\'.\' stored at offset %r, integer digits end at %r' % (p.off, g.get('int_end')))
-            g['dot_off'] = p.off
-            g['ndot'] += 1
-            return
-        if c == 0:
-            end = g.get('frac_end', g['dot_off'] + 1 if 'dot_off' in g else g.get('int_end'))
-            ok = end is not None and st.cons.entails_eq(p.off, end)
-            sink.inst('R-FTOA', fname, 'terminator-follows-the-last-character', ok, w,
-                      'NUL stored at offset %r, text ends at %r' % (p.off, end))
-            g['nul_off'] = p.off
-            g['nnul'] += 1
-            return
-        g['nother'] += 1
-        sink.inst('R-FTOA', fname, 'no-other-stores-into-the-buffer', False, w, 'unexpected store of %r at offset %r' % (v, p.off))
-    it.store_hook = store_hook
-
-    fin = ['ghost_tok_post == 0']
-    post = [
-        dict(name='every path returns the buffer', then=['ret_arg == 1', 'ret_off == 0']),
-        dict(name='inf: sign then token', when=['ghost_tok_post == 1'],
-             then=['ghost_tok_buf_post == 1', 'ghost_tok_off_post == 1', 'ghost_nminus_post + ghost_nplus_post == 1',
-                   'ghost_nnul_post == 0', 'ghost_ndot_post == 0']),
-        dict(name='nan: token only', when=['ghost_tok_post == 2'],
-             then=['ghost_tok_buf_post == 1', 'ghost_tok_off_post == 0', 'ghost_nminus_post + ghost_nplus_post == 0',
-                   'ghost_nnul_post == 0']),
-        dict(name='tokens are inf/nan', then=['ghost_tok_post <= 2']),
-        dict(name='finite: terminated, no plus sign', when=fin, then=['ghost_nnul_post == 1', 'ghost_nplus_post == 0',
-                                                                      'ghost_nul_off_post >= 1']),
-        dict(name='precision 1..10: exactly that many fraction digits', when=fin + ['arg2 >= 1', 'arg2 <= %d' % MAXP],
-             then=['ghost_ndot_post == 1', 'ghost_nul_off_post == ghost_dot_off_post + 1 + arg2']),
-        dict(name='precision > 10 is clamped to 10', when=fin + ['arg2 >= %d' % (MAXP + 1)],
-             then=['ghost_ndot_post == 1', 'ghost_nul_off_post == ghost_dot_off_post + %d' % (MAXP + 1)]),
-        dict(name='precision 0: no point, no fraction', when=fin + ['arg2 == 0'],
-             then=['ghost_ndot_post == 0', 'ghost_nul_off_post == ghost_int_end_post']),
-        dict(name='automatic precision: 0..6 fraction digits', when=fin + ['arg2 <= -1', 'ghost_ndot_post >= 1'],
-             then=['ghost_ndot_post == 1', 'ghost_nul_off_post >= ghost_dot_off_post + 2',
-                   'ghost_nul_off_post <= ghost_dot_off_post + 7']),
-    ]
-    run = Run7(it, [])
-    run.run(f.name, spec7(setup=setup, post=post))
-    import_obligations(rep, 'R-FTOA', it, run)
-    rounders_rule(rep, mod, f)
-
-
-# ----------------------------------------------------------------------------------------------
-# parsers
-# ----------------------------------------------------------------------------------------------
-def reach(mod, f, depth=3):
-    out = [f]
-    seen = {f.name}
-    frontier = [f]
-    for _ in range(depth):
-        nxt = []
-        for g in frontier:
-            for c in g.calls():
-                t = mod.fn(c.callee) if c.callee else None
-                if t is not None and not t.decl and t.name not in seen:
-                    seen.add(t.name)
-                    out.append(t)
-                    nxt.append(t)
-        frontier = nxt
-    return out
-
-
-def grammar_rule(rep, mod, f, name):
-    """R-GRAMMAR (necessary condition): a parser of [+-]d*[.d*][(e|E)[+-]d+] must test characters against '+', '-',
-    '.', 'e' and 'E' (or fold the case) somewhere in itself or its callees"""
-    eq = set()
-    fold = False
-    for g in reach(mod, f):
-        for i in g.all_insts():
-            if i.op == 'icmp' and i.pred in ('eq', 'ne'):
-                for o in i.ops:
-                    if o.k == 'ci':
-                        eq.add(o.ival)
-            elif i.op == 'switch':
-                for c in i.d['cases']:
-                    eq.add(c['v'])
-            elif i.op in ('or', 'and') and any(o.k == 'ci' and o.ival in (32, -33, 223) for o in i.ops):
-                fold = True
-            elif i.op == 'call' and i.callee in ('tolower', 'toupper', 'igris_tolower', 'igris_toupper'):
-                fold = True
-    w = where(f)
-    for key, ok, miss in (
-            ('recognises a leading \'-\'', 45 in eq, '\'-\''),
-            ('recognises a leading \'+\'', 43 in eq, '\'+\''),
-            ('recognises the decimal point', 46 in eq, '\'.\''),
-            ('recognises the exponent marker e/E', (101 in eq and 69 in eq) or ((101 in eq or 69 in eq) and fold), '\'e\'/\'E\'')):
-        rep.inst('R-GRAMMAR', name, key, ok, w,
-                 'neither %s nor its callees ever compare a character with %s: that part of a decimal literal cannot be '
-                 'recognised' % (name, miss), fact={'constants': sorted(c for c in eq if 32 <= c < 127)})
-
-
-def float_accumulators(f):
-    """loops  val = val * 10.0 + digit  in floating point"""
-    out = []
-    for L in f.loops:
-        for ph in [i for i in L['header'].insts if i.op == 'phi' and i.ty.get('k') == 'fp']:
-            for (bb, v) in ph.incoming:
-                if f.bmap[bb] not in L['blocks'] or v.k != 'inst':
-                    continue
-                a = f.insts[v.id]
-                mul = None
-                if a.op == 'call' and (a.callee or '').startswith('llvm.fmuladd'):
-                    ops = a.ops[:2]
-                    if any(o.k == 'inst' and o.id == ph.id for o in ops) and any(o.k == 'cf' for o in ops):
-                        mul = [o for o in ops if o.k == 'cf'][0]
-                elif a.op == 'fadd':
-                    for o in a.ops:
-                        if o.k == 'inst' and f.insts[o.id].op == 'fmul':
-                            m = f.insts[o.id]
-                            if any(x.k == 'inst' and x.id == ph.id for x in m.ops) and any(x.k == 'cf' for x in m.ops):
-                                mul = [x for x in m.ops if x.k == 'cf'][0]
-                if mul is not None:
-                    try:
-                        out.append((L, ph, float(mul.d['v'])))
-                    except (ValueError, KeyError):
-                        pass
-    return out
-
-
-def fpacc_rule(rep, mod, f, name):
-    """R-FPACC: the mantissa digits are accumulated in floating point (val*10+d); a fixed-width integer accumulator
-    silently wraps on literals with more digits than it can hold"""
-    facc = [a for a in float_accumulators(f) if a[2] == 10.0]
-    bad = []
-    for c in f.calls():
-        t = mod.fn(c.callee) if c.callee else None
-        if t is None or t.decl or not find_accumulators(t):
-            continue
-        for u in f.users(c):
-            x = u
-            if x.op in ('zext', 'sext', 'trunc'):
-                us = f.users(x)
-                x = us[0] if us else x
-            if x.op in ('uitofp', 'sitofp'):
-                bad.append((c.callee, t.ret.get('bits')))
-    ok = bool(facc) and not bad
-    rep.inst('R-FPACC', name, 'mantissa-accumulated-in-floating-point', ok, where(f),
-             None if ok else ('the mantissa is parsed by %s into a fixed-width integer and converted afterwards: digits '
-                              'beyond that width wrap silently (e.g. an integer part of 2^32 or 20 fraction digits)'
-                              % ', '.join('%s (%s bits)' % b for b in sorted(set(bad))) if bad else
-                              'no floating-point digit accumulation loop found'),
-             fact={'float_loops': len(facc), 'integer_parsers': sorted(set(b[0] for b in bad))})
-
-
-def forced(it, st, ch, c):
-    return feasible(it, st, [(ch, c - 1)]) is None and feasible(it, st, [(c + 1, ch)]) is None and \
-        feasible(it, st, [(c, ch), (ch, c)]) is not None
-
-
-class InterpF(Interp7):
-    """Interp7 that remembers every character read from the C string (ghost chars: offset key -> (offset, value))"""
-
-    def exec_inst(self, fn, i, st):
-        out = Interp7.exec_inst(self, fn, i, st)
-        if i.op == 'load' and i.ty.get('bits') == 8:
-            for s in out:
-                off = s.ghost.get('last_off')
-                ch = s.ghost.get('last_ch')
-                p = self.val(s, i.ops[0], fn) if i.ops[0].key() in s.env or i.ops[0].k != 'inst' else None
-                if off is None or ch is None or not isinstance(p, PtrVal) or p.off != off:
-                    continue
-                d = dict(s.ghost.get('chars') or {})
-                d[off.key()] = (off, ch)
-                s.ghost['chars'] = d
-        return out
-
-
-def exp_minus(it, st):
-    for (off, ch) in (st.ghost.get('chars') or {}).values():
-        if off.is_const() and off.c == 0:
-            continue
-        if forced(it, st, ch, 45):
-            return True
-    return False
-
-
-def atof64_check(rep, mod):
-    import absint
-    old = absint.MAX_STATES
-    absint.MAX_STATES = 300        # five scan loops in sequence, each with two exits and a terminator split
-    try:
-        _atof64_check(rep, mod)
-    finally:
-        absint.MAX_STATES = old
-
-
-def _atof64_check(rep, mod):
-    fname = 'igris_atof64'
-    f = need(mod, fname)
-    accs = find_accumulators(f)
-    if len(accs) != 1 or strip(f, accs[0]['base']).k != 'ci' or strip(f, accs[0]['base']).ival != 10:
-        raise AnalysisBroken('%s: decimal exponent accumulation loop not found' % fname)
-    E = accs[0]
-    # the addition that merges the exponent into the scale count
-    merges = []
-    for i in f.all_insts():
-        if i.op == 'add' and i.block not in E['loop']['blocks'] and i.id != E['add'].id:
-            for k in (0, 1):
-                o = i.ops[k]
-                if o.k == 'inst' and (o.id == E['phi'].id or (f.insts[o.id].op in ('mul', 'sub', 'select') and
-                                                               depends_mul(f, o, E['phi']))):
-                    merges.append((i, o))
-    if len(merges) != 1:
-        raise AnalysisBroken('%s: expected one addition of the exponent to the scale count, found %d' % (fname, len(merges)))
-    M, contrib = merges[0]
-    rets = f.returns()
-    signs = []
-    for i in f.all_insts():
-        if i.op == 'sitofp':
-            for u in f.users(i):
-                if u.op == 'fmul' and any(depends_ret(f, r, u) for r in rets):
-                    signs.append(i)
-    if len(signs) != 1:
-        raise AnalysisBroken('%s: expected one integer sign factor in the result, found %d' % (fname, len(signs)))
-    S = signs[0]
-    it = InterpF(mod)
-    it.no_peel = True
-    it.havoc_pure_loops(f)
-    sink = Sink(rep, it)
-
-    def merge_hook(interp, st, i, fn):
-        if interp.recording > 0:
-            return
-        ev = interp.val(st, iv(E['phi']), fn)
-        cv = interp.val(st, contrib, fn)
-        el = st.as_s(ev) if isinstance(ev, IntVal) else None
-        cl = st.as_s(cv) if isinstance(cv, IntVal) else None
-        neg = exp_minus(interp, st)
-        ok = el is not None and cl is not None and st.cons.entails_eq(cl, -el if neg else el)
-        sink.inst('R-EXPSIGN', fname, 'exponent is subtracted iff it is written with \'-\'' if neg else
-                  'exponent is added when it has no \'-\'', ok, i.where(),
-                  'the literal has %s exponent sign but the scale count receives %r for an exponent value %r '
-                  '(e.g. "1e-2" must scale by 10^-2)' % ('a \'-\'' if neg else 'no \'-\'', cl, el))
-    it.pre[(f.name, M.id)] = merge_hook
-
-    def sign_hook(interp, st, i, fn):
-        if interp.recording > 0:
-            return
-        sv = interp.val(st, i.ops[0], fn)
-        sl = st.as_s(sv) if isinstance(sv, IntVal) else None
-        ch = st.ghost.get('first_ch')
-        if ch is None or sl is None:
-            sink.inst('R-MANTSIGN', fname, 'sign factor is decided by the first character', False, i.where(),
-                      'sign factor %r, first character %r' % (sl, ch))
-            return
-        minus = forced(interp, st, ch, 45)
-        can_minus = feasible(interp, st, [(45, ch), (ch, 45)]) is not None
-        if minus:
-            ok = st.cons.entails_eq(sl, -1)
-            sink.inst('R-MANTSIGN', fname, 'leading \'-\': result is negated', ok, i.where(),
-                      'the literal starts with \'-\' but the sign factor is %r' % sl)
-        elif not can_minus:
-            ok = st.cons.entails_eq(sl, 1)
-            sink.inst('R-MANTSIGN', fname, 'no leading \'-\': result keeps its sign', ok, i.where(),
-                      'the literal does not start with \'-\' but the sign factor is %r (a \'-\' elsewhere in the literal, '
-                      'e.g. in the exponent "1e-2", must not negate the value)' % sl)
-        else:
-            sink.inst('R-MANTSIGN', fname, 'sign factor is decided by the first character', False, i.where(),
-                      'the state reaching the sign factor does not decide whether the first character is \'-\'')
-    it.pre[(f.name, S.id)] = sign_hook
-    post = [dict(name='end pointer is the scan position',
-                 then=['ghost_end_set_post == 1', 'ghost_end_arg_post == 0', 'ghost_end_off_post == ghost_last_off_post'])]
-    run = Run7(it, [])
-    run.run(f.name, spec7(setup=cstr_params(0), extents={'arg1': '8'}, post=post, outptrs={1: 'end'}))
-    import_obligations(rep, 'R-ATOF64', it, run)
-    if guarded_outptr_rule(rep, 'R-ATOF64', f, fname, 1) == 0:
-        raise AnalysisBroken('%s never stores the end pointer' % fname)
-    # digits: every float accumulation multiplies by 10 and adds c - '0'
-    fa = float_accumulators(f)
-    rep.inst('R-ATOF64', fname, 'integer and fraction digits are accumulated as val*10 + digit',
-             len(fa) == 2 and all(a[2] == 10.0 for a in fa), where(f),
-             'found %d floating accumulation loops with factors %s' % (len(fa), [a[2] for a in fa]))
-    # scale factors
-    muls = sorted(float(o.d['v']) for L in f.loops for b in L['blocks'] for i in b.insts if i.op == 'fmul'
-                  for o in i.ops if o.k == 'cf' and L not in [a[0] for a in fa])
-    rep.inst('R-ATOF64', fname, 'scaling multiplies by 10 and by 0.1', muls == [0.1, 10.0], where(f),
-             'scaling loops multiply by %s' % muls, fact=muls)
-
-
-def depends_mul(f, v, target, depth=4):
-    if v.k != 'inst' or depth < 0:
-        return False
-    if v.id == target.id:
-        return True
-    i = f.insts[v.id]
-    if i.op in ('mul', 'sub', 'select', 'sext', 'zext', 'trunc'):
-        return any(depends_mul(f, o, target, depth - 1) for o in i.ops)
-    return False
-
-
-def depends_ret(f, r, inst, depth=4):
-    if not r.ops:
-        return False
-    st = [(r.ops[0], 0)]
-    while st:
-        v, d = st.pop()
-        if v.k != 'inst' or d > depth:
-            continue
-        if v.id == inst.id:
-            return True
+def const_root(f, v):
+    """(root value, constant byte offset) through bitcasts and constant GEPs; offset None when a step is variable"""
+    off = 0
+    for _ in range(40):
+        if v.k != 'inst':
+            break
         i = f.insts[v.id]
-        if i.op in ('phi', 'select', 'fptrunc', 'fpext'):
-            for o in i.ops:
-                st.append((o, d + 1))
-    return False
+        if i.op in ('bitcast', 'addrspacecast'):
+            v = i.ops[0]
+        elif i.op == 'getelementptr':
+            for s in i.d['gep']['steps']:
+                if s['k'] == 'field':
+                    off += s['off']
+                elif s['v']['k'] == 'ci':
+                    off += s['stride'] * s['v']['v']
+                else:
+                    return v, None
+            v = i.ops[0]
+        else:
+            break
+    return v, off
 
 
-def atof32_check(rep, mod):
-    fname = 'igris_atof32'
-    f = need(mod, fname)
-    it = InterpF(mod)
-    it.havoc_pure_loops(need(mod, 'local_pow'))
-    post = [dict(name='end pointer is set on every path', then=['ghost_end_set_post == 1']),
-            dict(name='end pointer is the scan position', when=['ghost_end_set_post == 1'],
-                 then=['ghost_end_arg_post == 0', 'ghost_end_off_post == ghost_last_off_post'])]
-    run = Run7(it, [])
-    run.run(f.name, spec7(setup=cstr_params(0), extents={'arg1': '8'}, post=post, outptrs={1: 'end'}))
-    import_obligations(rep, 'R-ATOF32', it, run)
-    it2 = InterpF(mod)
-    run2 = Run7(it2, [])
-    run2.run(f.name, spec7(setup=combine(cstr_params(0), null_param(1))))
-    import_obligations(rep, 'R-ATOF32-NOEND', it2, run2)
-    # sign: every computed result is select(leading '-', -x, x)
+def same_place(f, p, q):
+    a, b = const_root(f, p), const_root(f, q)
+    return a[1] is not None and a[1] == b[1] and a[0].key() == b[0].key()
+
+
+def binreader_rule(rep, repo):
+    """R-BINREADER: igris::binreader::read_ascii_decimal_float parses at the stream cursor with igris_atof32, lets the
+    parser move the cursor to the end of the literal (the cursor field is passed as the end pointer) and stores the value
+    through the result parameter"""
+    mod = witness('w_c12_binreader.cpp', repo)
+    rep.units.append('igris/binreader.h')
+    name = cxx(mod, 'igris::binreader', 'read_ascii_decimal_float')
+    f = mod.fn(name)
+    fn = 'igris::binreader::read_ascii_decimal_float'
+    w = where(f)
+    calls = [c for c in f.calls() if c.callee and not c.callee.startswith('llvm.')]
+    tgt = [c for c in calls if c.callee == 'igris_atof32']
+    ok = len(tgt) == 1 and len(calls) == 1
+    rep.inst('R-BINREADER', fn, 'parses with igris_atof32 only', ok, w,
+             'calls %s' % sorted(c.callee for c in calls), fact=[c.callee for c in calls])
+    if len(tgt) != 1:
+        return
+    c = tgt[0]
+    a0 = c.ops[0]
+    ld = f.insts[a0.id] if a0.k == 'inst' else None
+    r0 = const_root(f, ld.ops[0]) if ld is not None and ld.op == 'load' else (None, None)
+    ok = r0[0] is not None and r0[0].k == 'arg' and r0[0].argno == 0 and r0[1] is not None
+    rep.inst('R-BINREADER', fn, 'the text parsed is the stream cursor', ok, c.where(),
+             'argument 0 of igris_atof32 is not a field of *this')
+    r1 = const_root(f, c.ops[1])
+    ok2 = ok and r1[0].k == 'arg' and r1[0].argno == 0 and r1[1] == r0[1]
+    rep.inst('R-BINREADER', fn, 'the end of the literal becomes the new stream cursor', ok2, c.where(),
+             'the end-pointer argument of igris_atof32 is not the address of the cursor field the text was read from')
+    sts = [i for i in f.all_insts() if i.op == 'store' and i.ops[0].k == 'inst' and i.ops[0].id == c.id]
+    ok = len(sts) == 1 and sts[0].ops[1].k == 'arg' and sts[0].ops[1].argno == 1
+    rep.inst('R-BINREADER', fn, 'the parsed value is stored through the result parameter', ok, c.where(),
+             'the result of igris_atof32 is not stored through parameter 1')
+
+
+def bits_test(f, want_pred):
+    """f returns ((bits of its double argument) & 0x7fff...) <pred> 0x7ff0..."""
     rets = f.returns()
-    vals = []
-    if len(rets) == 1 and rets[0].ops:
-        v = rets[0].ops[0]
-        i = f.insts[v.id] if v.k == 'inst' else None
-        vals = list(i.ops) if i is not None and i.op == 'phi' else [v]
-    n = 0
-    for v in vals:
-        if v.k == 'cf':
-            continue
-        n += 1
-        i = f.insts[v.id] if v.k == 'inst' else None
+    if len(rets) != 1 or not rets[0].ops:
+        return False, 'no single return'
+    v = bool_root(f, strip(f, rets[0].ops[0]))
+    c = f.insts[v.id] if v.k == 'inst' else None
+    if c is None or c.op != 'icmp':
+        return False, 'the result is not a comparison'
+    k = [o for o in c.ops if o.k == 'ci']
+    x = [o for o in c.ops if o.k != 'ci']
+    if len(k) != 1 or len(x) != 1 or c.ops[1].k != 'ci':
+        return False, 'the comparison has no constant right-hand side'
+    a = f.insts[x[0].id] if x[0].k == 'inst' else None
+    if a is None or a.op != 'and' or not any(o.k == 'ci' and o.ival % (1 << 64) == 0x7fffffffffffffff for o in a.ops):
+        return False, 'the sign bit is not masked off with 0x7fffffffffffffff'
+    src = [o for o in a.ops if o.k != 'ci']
+    bits_ok = False
+    if len(src) == 1 and src[0].k == 'inst':
+        b = f.insts[src[0].id]
+        if b.op == 'bitcast' and b.ops[0].k == 'arg':
+            bits_ok = True
+        elif b.op == 'call' and b.callee and b.ops and b.ops[0].k == 'arg' and b.bits == 64:
+            g = f.mod.fn(b.callee)
+            # the helper stores its double argument and reloads the same bytes as a 64-bit integer
+            if g is not None and not g.decl:
+                sts = [i for i in g.all_insts() if i.op == 'store']
+                lds = [i for i in g.all_insts() if i.op == 'load']
+                gr = g.returns()
+                if len(sts) == 1 and len(lds) == 1 and sts[0].ops[0].k == 'arg' and len(gr) == 1 and gr[0].ops and \
+                        gr[0].ops[0].k == 'inst' and gr[0].ops[0].id == lds[0].id and lds[0].bits == 64 and \
+                        same_place(g, sts[0].ops[1], lds[0].ops[0]) and \
+                        g.params[0]['ty'].get('bits') == 64:
+                    bits_ok = True
+    if not bits_ok:
+        return False, 'the tested integer is not the bit pattern of the argument'
+    kv = k[0].ival % (1 << 64)
+    if c.pred != want_pred or kv != 0x7ff0000000000000:
+        return False, 'compares with %s 0x%x, expected %s 0x7ff0000000000000' % (c.pred, kv, want_pred)
+    return True, None
+
+
+def dprint_rule(rep, repo):
+    """R-DPRINT: debug_printdec_double_prec (dprint's own float printer; it does not go through igris_ftoa)"""
+    mod = compile_ir(repo + '/igris/dprint/dprint_func_impl.c', repo)
+    rep.units.append('igris/dprint/dprint_func_impl.c')
+    fname = 'debug_printdec_double_prec'
+    f = need(mod, fname)
+    w = where(f)
+    forward_rule(rep, 'R-FORWARD', need(mod, 'debug_printdec_float_prec'), 'debug_printdec_float_prec', fname,
+                 [('arg', 0), ('arg', 1)], None)
+    # NaN / infinity are recognised by bit pattern and diverted before any digit is computed
+    convs = [i for i in f.all_insts() if i.op in ('fptosi', 'fptoui')]
+    if not convs:
+        raise AnalysisBroken('%s: no float -> integer conversion found (anchor changed)' % fname)
+    first = [c for c in convs if all(c is d or f.dominates(c, d) for d in convs)]
+    if len(first) != 1:
+        raise AnalysisBroken('%s: no conversion dominates the others (anchor changed)' % fname)
+    IC = first[0]
+    diverted = {}
+    for (pred, what) in (('ugt', 'NaN'), ('eq', 'infinity')):
         ok = False
-        det = 'a result is not a selection between the magnitude and its negation'
-        if i is not None and i.op == 'select':
-            t, e = i.ops[1], i.ops[2]
-            ti = f.insts[t.id] if t.k == 'inst' else None
-            if ti is not None and ti.op == 'fneg' and same_float(f, ti.ops[0], e):
-                c = bool_root(f, i.ops[0])
-                ci = f.insts[c.id] if c.k == 'inst' else None
-                while ci is not None and ci.op == 'select' and ci.ops[1].k == 'ci' and ci.ops[2].k == 'ci' and \
-                        ci.ops[1].ival == 1 and ci.ops[2].ival == 0:
-                    c = bool_root(f, ci.ops[0])
-                    ci = f.insts[c.id] if c.k == 'inst' else None
-                if ci is not None and ci.op == 'icmp' and ci.pred == 'eq':
-                    k = [o for o in ci.ops if o.k == 'ci']
-                    x = [strip(f, o) for o in ci.ops if o.k != 'ci']
-                    ld = f.insts[x[0].id] if x and x[0].k == 'inst' else None
-                    ok = bool(k) and k[0].ival == 45 and ld is not None and ld.op == 'load' and \
-                        ld.ops[0].k == 'arg' and ld.ops[0].argno == 0
-                    det = 'the negated magnitude is selected by a test that is not "first character == \'-\'"'
-            else:
-                det = 'the selection does not negate on its true side'
-        rep.inst('R-ATOF32', fname, 'result %d is negated iff the literal starts with \'-\'' % n, ok,
-                 i.where() if i is not None else where(f), None if ok else det)
-    if n == 0:
-        raise AnalysisBroken('%s: no computed result found' % fname)
-
-
-def same_float(f, a, b):
-    if a.key() == b.key():
-        return True
-    ia = f.insts[a.id] if a.k == 'inst' else None
-    ib = f.insts[b.id] if b.k == 'inst' else None
-    if ia is not None and ib is not None and ia.op == ib.op and ia.op in ('uitofp', 'sitofp', 'fpext', 'fptrunc'):
-        return same_float(f, ia.ops[0], ib.ops[0])
-    return False
+        det = 'no call to a bit-pattern test for %s on the argument dominates the integer conversion' % what
+        for c in f.calls():
+            g = mod.fn(c.callee) if c.callee else None
+            if g is None or g.decl or not c.ops or c.ops[0].k != 'arg' or c.ops[0].argno != 0:
+                continue
+            good, why = bits_test(g, pred)
+            if not good:
+                continue
+            for u in f.users(c):
+                t = u
+                if t.op == 'icmp' and t.pred in ('ne', 'eq') and any(o.k == 'ci' and o.ival == 0 for o in t.ops):
+                    for b in f.blocks:
+                        br = b.term
+                        if br.op == 'br' and 'f' in br.d and br.ops[0].k == 'inst' and br.ops[0].id == t.id:
+                            cont = f.bmap[br.d['f'] if t.pred == 'ne' else br.d['t']]
+                            away = f.bmap[br.d['t'] if t.pred == 'ne' else br.d['f']]
+                            if cont is not away and len(cont.preds) == 1 and f.dominates_block(cont, IC.block) and \
+                                    IC.block not in f.reachable_blocks(away):
+                                ok = True
+        diverted[what] = ok
+        rep.inst('R-DPRINT', fname, '%s is diverted before any digit is computed' % what, ok, w, None if ok else det)
+    ax = {}
+    if diverted['NaN'] and diverted['infinity']:
+        ax[('a', 0)] = (-DBL_MAX, DBL_MAX, False)
+    fr = FRange(mod, f, axioms=ax)
+    # the three conversions
+    L = None
+    for L_ in f.loops:
+        g = loop_guard(f, L_)
+        if g is not None and g[2].k == 'arg' and g[2].argno == 1:
+            L = L_
+    if L is None:
+        raise AnalysisBroken('%s: loop bounded by the precision parameter not found (anchor changed)' % fname)
+    inl = [c for c in convs if c.block in L['blocks']]
+    aft = [c for c in convs if c is not IC and c.block not in L['blocks']]
+    if len(inl) != 1 or len(aft) != 1:
+        raise AnalysisBroken('%s: expected one conversion inside and one after the fraction loop (anchor changed)' % fname)
+    for (role, i) in (('integer part', IC), ('scaled fraction inside the loop', inl[0]), ('scaled fraction after the loop', aft[0])):
+        c = fr.conv(i)
+        rep.inst('R-DPRINT', fname, '%s: the converted value fits the integer type' % role, c['ok'], i.where(),
+                 None if c['ok'] else '%s conversion (%s to i%d): %s' % (role, i.op, i.bits, c['why']),
+                 fact={'operand_range': [repr(c['range'][0]), repr(c['range'][1])], 'may_be_nan': c['range'][2]})
+    # exactly prec characters after the point
+    emit = [c for c in f.calls() if c.callee and c.callee.startswith('debug_p')]
+    inloop = [c for c in emit if c.block in L['blocks']]
+    after = [c for c in emit if c.block not in L['blocks'] and any(c.block in f.reachable_blocks(t) for (b, t) in L['exits'])]
+    every = [c for c in inloop if all(f.dominates_block(c.block, lt) for lt in L['latches'])]
+    ok = len(every) == 1 and len(inloop) == 1 and not after
+    det = None
+    if not ok:
+        det = ('inside the loop over the precision %d of %d print call(s) run on every iteration, %d print call(s) follow the '
+               'loop (%s): the number of characters after the point is not the requested precision'
+               % (len(every), len(inloop), len(after), ', '.join(sorted(set(c.callee for c in after)))))
+    rep.inst('R-DPRINT', fname, 'the fraction is printed as exactly prec characters (one per iteration, none after the loop)',
+             ok, L['header'].term.where(), det)
 
 
 # ----------------------------------------------------------------------------------------------
 def run(rep, repo, tier):
     rep.explanation = (
-        'igris_f32toa by abstract interpretation (floats are opaque): for every value and precision the text has the shape '
-        '[-]digits[.digits] NUL with the sign first, the point directly after the integer digits, exactly `precision` '
-        'fraction digits (clamped to 10; none and no point for 0; 0..6 when automatic), the terminator directly after the '
-        'last character, the integer digits reversed by mirror swaps inside their range, every path returns the buffer, '
-        'inf/nan write the tokens "inf"/"nan" (sign first), the rounding table equals 0.5*10^-i and its index stays inside '
-        'it; integer digits must be provably \'0\'..\'9\'. igris_f64toa/ftoa forward to the float renderer. Parsers: with the '
-        'C-string model igris_atof32/atof64 never read past the terminator, store the end pointer on every path and it is the '
-        'scan position (also with a NULL end pointer); atof64: the sign factor is -1 exactly when the first character is \'-\', '
-        'the exponent is subtracted exactly when written with \'-\', digits accumulate as val*10+d in floating point, '
-        'scaling uses 10 and 0.1; atof32: result negated iff leading \'-\'; grammar coverage (which of + - . e E a parser can '
-        'recognise at all); strtod/atof/igris_strtod forward to igris_atof64. Not decided: any numerical accuracy bound '
-        '(rounding, ulps, fraction digit values), behaviour beyond the magnitude the algorithms support.')
-    rep.assumptions += ['input strings are NUL terminated', 'floating-point values are opaque to the analysis']
+        'Renderer igris_f32toa. (1) Layout by abstract interpretation over all values and precisions: the text is '
+        '[-]digits[.digits] NUL with the sign first, at least one integer digit, the point directly after the integer '
+        'digits, exactly `precision` fraction digits (clamped to 10; no point and no fraction for 0; 0..6 when automatic), '
+        'the terminator directly after the last character and no other store into the buffer; the integer digits are '
+        'reversed by mirror swaps inside their own range; every path returns the buffer; inf/nan write the tokens '
+        '"inf"/"nan" (sign first); the rounding table index is in bounds and is the number of fraction digits printed. '
+        '(2) Float -> integer conversions by interval analysis of the floating-point SSA values (IEEE-754, dominating '
+        'comparisons, inductive intervals for loop-carried values, x - (T)(int)x in [0,1)): each conversion operand must '
+        'fit its integer type (R-FCONV); with the derived integer intervals the interpreter proves every integer and '
+        'fraction character to be \'0\'..\'9\'. (3) IR dataflow (R-DIGITS): integer digits are n % 10 / n /= 10 until '
+        'zero, stored as \'0\'+remainder at a cursor stepping by one; fraction digits are (int)(10*frac) with the digit '
+        'subtracted again, starting from value - integer part; R-ROUNDERS: the table is 0.5*10^-i and is added before the '
+        'integer part is taken. igris_f64toa / igris_ftoa forward to it. '
+        'Parsers. With the C-string model igris_atof32 / igris_atof64 never read past the terminator; the end pointer is '
+        'stored (guarded by a NULL test) on every path and is the scan position. atof64: sign factor -1 exactly for a '
+        'leading \'-\', the exponent reaches the decimal scale with its own sign and only the scale, accumulated digits are '
+        'c-\'0\' of characters \'0\'..\'9\', fraction digits lower the scale by one each, the x10 / x0.1 loops run in the '
+        'right direction on that scale, the result is sign * scaled mantissa. atof32: the early return is taken only for '
+        'characters that cannot start a literal, a sign is skipped, the fraction is divided by 10^(digits scanned), the '
+        'result is negated iff the literal starts with \'-\'; R-GRAMMAR / R-FPACC: which parts of the grammar a parser can '
+        'recognise at all and whether the mantissa is accumulated in floating point. strtod / atof / igris_strtod / '
+        'binreader::read_ascii_decimal_float forward text and end pointer. dprint: NaN/inf diverted by bit-pattern tests, '
+        'conversions in range, one fraction character per requested digit. '
+        'Not decided: numerical accuracy (how many ulps the parsers are off, whether the printed digits are the correctly '
+        'rounded ones), the value of the automatic precision, the twin copies in igris/container/std_portable.h.')
+    rep.assumptions += ['input strings are NUL terminated',
+                        'IEEE-754 binary32/binary64 arithmetic with round-to-nearest (interval analysis of float values)',
+                        'a float -> integer conversion whose operand is out of range is undefined; later clauses are '
+                        'evaluated for defined conversions and the conversion site itself is reported (R-FCONV)']
     mod = compile_ir(repo + '/igris/util/numconvert.c', repo)
     rep.units.append('igris/util/numconvert.c')
     ftoa_check(rep, mod)
@@ -714,12 +242,19 @@ def run(rep, repo, tier):
     rep.units.append('compat/libc/stdlib/strtod.c')
     forward_rule(rep, 'R-FORWARD', need(modl, 'strtod'), 'strtod', 'igris_atof64', [('arg', 0), ('arg', 1)], 'float')
     forward_rule(rep, 'R-FORWARD', need(modl, 'atof'), 'atof', 'igris_atof64', [('arg', 0), ('null',)], 'float')
+    binreader_rule(rep, repo)
+    dprint_rule(rep, repo)
     rep.floor('R-FTOA', 40)
+    rep.floor('R-FCONV', 2)
+    rep.floor('R-DIGITS', 9)
     rep.floor('R-ROUNDERS', 13)
-    rep.floor('R-FORWARD', 18)
+    rep.floor('R-FORWARD', 21)
     rep.floor('R-EXPSIGN', 2)
     rep.floor('R-MANTSIGN', 2)
-    rep.floor('R-ATOF64', 5)
-    rep.floor('R-ATOF32', 5)
+    rep.floor('R-ATOF64', 20)
+    rep.floor('R-ATOF32', 15)
+    rep.floor('R-ATOF32-NOEND', 3)
     rep.floor('R-GRAMMAR', 8)
     rep.floor('R-FPACC', 2)
+    rep.floor('R-BINREADER', 4)
+    rep.floor('R-DPRINT', 6)
